@@ -92,6 +92,8 @@ type simWorld struct {
 
 	onPeerDown func(*simPeer, string)
 	fam        any
+	bfdAllowed map[int]map[uint8]bool
+	bfdSeen    map[int]int
 	finalDump  string
 	stopped    bool
 }
@@ -258,6 +260,9 @@ func (w *simWorld) apiPeer(c *PeerCfg) *api.Peer {
 		p.GracefulRestart = &api.GracefulRestart{Enabled: true, RestartTime: uint32(c.GR.RestartTime), NotificationEnabled: c.GR.NotifEnabled,
 			LonglivedEnabled: c.GR.LLGR, DeferralTime: uint32(c.GR.Deferral), LocalRestarting: w.sc.Global.GRRestarting}
 	}
+	if w.sc.Family == "bfd" {
+		p.Bfd = bfdAPIConf(w.bfdExtra()[c.Addr])
+	}
 	if len(c.ImportPol) > 0 || len(c.ExportPol) > 0 {
 		p.ApplyPolicy = &api.ApplyPolicy{}
 		if len(c.ImportPol) > 0 {
@@ -371,7 +376,8 @@ func runScriptOnce(t *testing.T, sc *Script, dump bool) (*RunResult, string) {
 			w = &simWorld{t: t, sc: sc, probes: map[string]int{}, local: map[viewKey]*annRoute{}, tags: map[uint32]*annRoute{}, tagsPfx: map[string]*annRoute{}, cells: map[string]bool{}, stopCh: make(chan struct{})}
 			w.net = newSimNet()
 			net.SimDialHook = w.net.dial
-			defer func() { net.SimDialHook = nil }()
+			net.SimListenPacketHook = w.net.listenPacket
+			defer func() { net.SimDialHook = nil; net.SimListenPacketHook = nil }()
 			runtime.SimEnable(sc.SchedSeed, sc.YieldN, sc.SelShuffle)
 			runtime.SimTrace(os.Getenv("VSIM_TRACE") != "")
 			defer runtime.SimDisable()
@@ -385,6 +391,7 @@ func runScriptOnce(t *testing.T, sc *Script, dump bool) (*RunResult, string) {
 	}()
 	runtime.SimDisable()
 	net.SimDialHook = nil
+	net.SimListenPacketHook = nil
 	res.WallMs = float64(time.Since(wall).Microseconds()) / 1000
 	if w != nil {
 		w.mu.Lock()
@@ -627,6 +634,18 @@ func (w *simWorld) checkAfterStop(how string) {
 			l = append(l, c.ra.String())
 		}
 		w.violate("C20", "conn-leak-after-"+how, strings.Join(l, ","), fmt.Sprintf("%d connection(s) handed to the daemon are still open after %s", len(open), how))
+	}
+	if us := w.net.openUDP(); len(us) > 0 {
+		var l []string
+		for _, u := range us {
+			if u.listen {
+				l = append(l, "listen "+u.la.String())
+			} else {
+				l = append(l, "to "+u.ra.IP.String())
+			}
+		}
+		sort.Strings(l)
+		w.violate("C20", "udp-socket-leak-after-"+how, strings.Join(l, ","), fmt.Sprintf("%d datagram socket(s) opened by the daemon are still open after %s", len(us), how))
 	}
 }
 
